@@ -11,6 +11,7 @@ import (
 	"io"
 	"math/rand"
 	"os"
+	"path/filepath"
 	"runtime"
 	"sort"
 	"strconv"
@@ -26,12 +27,70 @@ import (
 )
 
 func init() {
-	verifKinds["c10.script"] = verifC10Script
+	verifKinds["c10.script"] = func(args []vsx) vsx { return verifC10Watchdog(verifC10Script, args) }
+	verifKinds["c10.proc"] = func(args []vsx) vsx { return verifC10Watchdog(verifC10Proc, args) }
 }
 
-// How long the harness waits for an expected event before declaring the run stuck.
-// Nothing depends on this value when the code behaves (all waits are for conditions).
-const verifC10Patience = 15 * time.Second
+// How long the harness waits for an expected event before declaring the run hung.
+// Nothing depends on this value when the code behaves (all waits are for conditions, and
+// every wait of every case is bounded by it: a Go-side hang is the outcome `(hang <where>)`
+// of that case, never a dead test binary).  The first hang of a test binary is given the
+// full patience (generous: the machine may be loaded); once one hang has been established
+// the tree is broken anyway and later waits in the same binary are cut short, and after a
+// few hangs the remaining cases are not run at all (so that a tree on which thousands of
+// cases hang - and the shrinker working on it - still finishes in minutes).
+// Runs on behalf of the shrinker ($VERIF_CASES = shrink.*) only look for the first candidate
+// that still fails, and what they find is evaluated once more in a run of its own with the
+// full patience before it is reported: they wait 3 s and stop at the first hang.
+const (
+	verifC10Patience      = 15 * time.Second
+	verifC10PatienceAfter = 2500 * time.Millisecond
+	verifC10MaxHangs      = 3
+	verifC10CaseDeadline  = 120 * time.Second
+)
+
+var verifC10Hangs atomic.Int64
+
+var verifC10ShrinkRun = strings.HasPrefix(filepath.Base(os.Getenv("VERIF_CASES")), "shrink.")
+
+func verifC10Wait() time.Duration {
+	if verifC10ShrinkRun {
+		return 3 * time.Second
+	}
+	if verifC10Hangs.Load() > 0 {
+		return verifC10PatienceAfter
+	}
+	return verifC10Patience
+}
+
+func verifC10TooManyHangs() bool {
+	n := verifC10Hangs.Load()
+	return n >= verifC10MaxHangs || (verifC10ShrinkRun && n >= 1)
+}
+
+// per-case watchdog: whatever blocks inside a case (also something the step-wise waits do not
+// cover), the case answers (hang ...) and the binary goes on with the next one
+func verifC10Watchdog(f func([]vsx) vsx, args []vsx) vsx {
+	if verifC10TooManyHangs() {
+		return vL(vS("bad-case")) // not run: see above (the first hangs have been reported)
+	}
+	ch := make(chan vsx, 1)
+	go func() {
+		defer func() {
+			if recover() != nil {
+				ch <- vCrash()
+			}
+		}()
+		ch <- f(args)
+	}()
+	select {
+	case v := <-ch:
+		return v
+	case <-time.After(verifC10CaseDeadline):
+		verifC10Hangs.Add(1)
+		return vL(vS("hang"), vS("case-deadline"))
+	}
+}
 
 // verifC10Until polls cond (cheap, mutex/atomic reads) until it holds.
 func verifC10Until(cond func() bool) bool {
@@ -41,7 +100,7 @@ func verifC10Until(cond func() bool) bool {
 		}
 		runtime.Gosched()
 	}
-	deadline := time.Now().Add(verifC10Patience)
+	deadline := time.Now().Add(verifC10Wait())
 	for !cond() {
 		if time.Now().After(deadline) {
 			return false
@@ -126,19 +185,43 @@ func (g *verifC10Gate) sawErr() bool {
 }
 
 // verifC10In records which goroutines reached a Write on the client's stdin (a sender that
-// is registered and inside WriteDelimitedMessage).
+// is registered and inside WriteDelimitedMessage), and plays the pipe that fails the write
+// of one request after k bytes with an error that is NOT io.ErrClosedPipe.
 type verifC10In struct {
 	inner io.WriteCloser
 	mu    sync.Mutex
 	seen  map[string]bool
+	plan  map[string]int // goroutine -> number of bytes of its request that get through
+	off   map[string]int
 }
+
+var errVerifC10Pipe = errors.New("verif: scripted failure of the client's stdin (not a closed pipe)")
 
 func (w *verifC10In) Write(p []byte) (int, error) {
 	id := verifC10Goid()
 	w.mu.Lock()
 	w.seen[id] = true
+	limit, planned := w.plan[id]
+	off := w.off[id]
+	if planned && off+len(p) <= limit {
+		w.off[id] = off + len(p)
+	}
 	w.mu.Unlock()
+	if planned && off+len(p) > limit {
+		n := limit - off
+		if n > 0 {
+			if k, err := w.inner.Write(p[:n]); err != nil {
+				return k, err // the pipe was closed first
+			}
+		}
+		return n, errVerifC10Pipe
+	}
 	return w.inner.Write(p)
+}
+func (w *verifC10In) failAfter(goid string, k int) {
+	w.mu.Lock()
+	w.plan[goid] = k
+	w.mu.Unlock()
 }
 func (w *verifC10In) entered(goid string) bool {
 	w.mu.Lock()
@@ -173,9 +256,10 @@ func (c *verifC10Ctl) whenDone(action func(error)) {
 
 // the scripted client: does exactly what the harness tells it, one command at a time
 type verifC10Cmd struct {
-	op   int // 0 read one request, 1 read 4 bytes, 2 write data, 3 close stdout, 4 close stdin, 5 exit
+	op   int // 0 read one request, 1 read 4 bytes, 2 write data, 3 close stdout, 4 close stdin, 5 exit, 6 read n bytes
 	data []byte
 	fail bool
+	n    int
 }
 
 type verifC10Fake struct {
@@ -231,6 +315,12 @@ func (f *verifC10Fake) run(_ context.Context, _ []string, in io.ReadCloser, out,
 				return errVerifC10Exit
 			}
 			return nil
+		case 6:
+			if _, err := io.ReadFull(in, make([]byte, c.n)); err != nil {
+				f.acks <- "!" + err.Error()
+			} else {
+				f.acks <- ""
+			}
 		}
 	}
 	return nil
@@ -239,28 +329,83 @@ func (f *verifC10Fake) run(_ context.Context, _ []string, in io.ReadCloser, out,
 func (f *verifC10Fake) do(c verifC10Cmd) (string, bool) {
 	select {
 	case f.cmds <- c:
-	case <-time.After(verifC10Patience):
+	case <-time.After(verifC10Wait()):
 		return "", false
 	}
 	select {
 	case a := <-f.acks:
 		return a, true
-	case <-time.After(verifC10Patience):
+	case <-time.After(verifC10Wait()):
 		return "", false
 	}
 }
 
+// one callback invocation: what the callback saw when it ran, and the response object it was
+// handed, which is kept and looked at AGAIN at the end of the case (a callback may keep its
+// response: "that test's own response" must still be that test's own then)
 type verifC10Fire struct {
-	id   int64
-	name string
-	resp bool
-	tag  string
-	code int64
+	id     int64
+	name   string
+	resp   bool
+	tag    string
+	code   int64
+	kept   *conformancev1.ClientCompatResponse
+	digest string
+}
+
+func verifC10Digest(m *conformancev1.ClientCompatResponse) string {
+	b, err := proto.MarshalOptions{Deterministic: true}.Marshal(m)
+	if err != nil {
+		return "!" + err.Error()
+	}
+	return string(b)
+}
+
+func verifC10NewFire(id int64, n string, resp *conformancev1.ClientCompatResponse, err error) verifC10Fire {
+	f := verifC10Fire{id: id, name: n}
+	if resp != nil {
+		f.resp = true
+		f.kept = resp
+		f.digest = verifC10Digest(resp)
+		f.tag = resp.GetError().GetMessage()
+		if resp.TestName != n {
+			f.tag = "!name-mismatch"
+		}
+	}
+	f.code = verifC10ErrCode(err)
+	if err != nil {
+		var fe *failedToGetResultError
+		if !errors.As(err, &fe) {
+			f.code = 9
+		}
+	}
+	return f
+}
+
+// the response as it reads NOW (at the end of the case)
+func (f *verifC10Fire) final() vsx {
+	if f.resp && f.code == 0 {
+		tag := f.tag
+		switch {
+		case f.kept.GetTestName() != f.name:
+			tag = "!response-now-names-" + f.kept.GetTestName()
+		case verifC10Digest(f.kept) != f.digest || f.kept.GetError().GetMessage() != f.tag:
+			tag = "!response-changed-after-the-callback"
+		}
+		return vL(vI(0), vS(f.name), vS(tag))
+	}
+	if !f.resp && f.code != 0 {
+		return vL(vI(1), vS(f.name), vI(f.code))
+	}
+	return vL(vI(2), vS(f.name)) // neither/both: never in the model
 }
 
 type verifC10Sender struct {
 	id       int64
 	name     string
+	kind     int64 // 0 ordinary, 1 cannot be marshalled, 2 stdin fails after failAt bytes
+	failAt   int
+	instant  bool // its write fails without touching the pipe: the goroutine cannot be held in it
 	goid     string
 	done     chan error
 	returned bool
@@ -321,6 +466,8 @@ func verifC10ErrCode(err error) int64 {
 		return 5
 	case errors.Is(err, errVerifC10Exit):
 		return 6
+	case errors.Is(err, errVerifC10Pipe):
+		return 4
 	case errors.Is(err, context.DeadlineExceeded):
 		return 7
 	default:
@@ -337,8 +484,6 @@ func protoUnmarshalC10(b []byte, m *conformancev1.ClientCompatRequest) error {
 	buf.Write(b)
 	return internal.ReadDelimitedMessage(&buf, m, "verif", time.Second, 1<<24)
 }
-
-var verifC10Stuck atomic.Int64
 
 type verifC10Run struct {
 	runner  *clientProcessRunner
@@ -360,6 +505,8 @@ type verifC10Run struct {
 	inflight    int64 // sender inside its write, -1 none
 	blocked     int64 // sender parked on sendMu, -1 none
 	reader      int   // 0 running, 1 stopped (wants sendMu), 2 closed send, 3 done
+	prevOp      int64 // the previous action of the script
+	prevID      int64
 	stopDone    chan struct{}
 	waitRes     *int64
 }
@@ -379,7 +526,7 @@ func verifC10Start() (*verifC10Run, error) {
 		r.gate = &verifC10Gate{inner: p.stdout}
 		r.gate.cond = sync.NewCond(&r.gate.mu)
 		p.stdout = r.gate
-		r.stdin = &verifC10In{inner: p.stdin, seen: map[string]bool{}}
+		r.stdin = &verifC10In{inner: p.stdin, seen: map[string]bool{}, plan: map[string]int{}, off: map[string]int{}}
 		p.stdin = r.stdin
 		return p, nil
 	}
@@ -394,7 +541,7 @@ func verifC10Start() (*verifC10Run, error) {
 	}
 	select {
 	case <-r.fake.set:
-	case <-time.After(verifC10Patience):
+	case <-time.After(verifC10Wait()):
 		return nil, errors.New("fake client did not start")
 	}
 	return r, nil
@@ -534,30 +681,29 @@ func (r *verifC10Run) rstep() string {
 	return ""
 }
 
-func (r *verifC10Run) startSender(id int64, name string) *verifC10Sender {
-	s := &verifC10Sender{id: id, name: name, done: make(chan error, 1)}
+// kind 0: an ordinary request; 1: a request that proto.Marshal refuses (invalid UTF-8 in a proto3
+// string field); 2: the client's stdin fails after k bytes (mod the request's framed length) of it
+func (r *verifC10Run) startSender(id int64, name string, kind int64, k int64) *verifC10Sender {
+	s := &verifC10Sender{id: id, name: name, kind: kind, done: make(chan error, 1)}
+	req := &conformancev1.ClientCompatRequest{TestName: name}
+	switch kind {
+	case 1:
+		req.Host = "caf\xe9"
+		s.instant = true
+	case 2:
+		s.failAt = int(k % int64(4+proto.Size(req)))
+		s.instant = s.failAt == 0
+	}
 	r.senders[id] = s
 	ready := make(chan struct{})
 	go func() {
 		s.goid = verifC10Goid()
+		if kind == 2 {
+			r.stdin.failAfter(s.goid, s.failAt)
+		}
 		close(ready)
-		req := &conformancev1.ClientCompatRequest{TestName: name}
 		s.done <- r.runner.sendRequest(req, func(n string, resp *conformancev1.ClientCompatResponse, err error) {
-			f := verifC10Fire{id: id, name: n}
-			if resp != nil {
-				f.resp = true
-				f.tag = resp.GetError().GetMessage()
-				if resp.TestName != n {
-					f.tag = "!name-mismatch"
-				}
-			}
-			f.code = verifC10ErrCode(err)
-			if err != nil {
-				var fe *failedToGetResultError
-				if !errors.As(err, &fe) {
-					f.code = 9
-				}
-			}
+			f := verifC10NewFire(id, n, resp, err)
 			r.mu.Lock()
 			r.fires = append(r.fires, f)
 			r.mu.Unlock()
@@ -568,6 +714,11 @@ func (r *verifC10Run) startSender(id int64, name string) *verifC10Sender {
 }
 
 func (r *verifC10Run) act(a vsx, next *vsx) string {
+	prevOp, prevID := r.prevOp, r.prevID
+	r.prevOp, r.prevID = a.l[0].i, -1
+	if len(a.l) > 1 && a.l[1].k == 'i' {
+		r.prevID = a.l[1].i
+	}
 	op := a.l[0].i
 	nextIs := func(code int64, id int64) bool {
 		if next == nil || next.l[0].i != code {
@@ -588,6 +739,16 @@ func (r *verifC10Run) act(a vsx, next *vsx) string {
 		if _, dup := r.senders[id]; dup || len(a.l[2].b) == 0 || len(a.l[2].b) > 100 {
 			return "bad-case"
 		}
+		kind, failAt := int64(0), int64(0)
+		if len(a.l) > 3 {
+			kind = a.l[3].i
+			if kind == 2 && len(a.l) > 4 {
+				failAt = a.l[4].i
+			}
+			if kind < 0 || kind > 2 || failAt < 0 {
+				return "bad-case"
+			}
+		}
 		if r.blocked >= 0 {
 			return "bad-case"
 		}
@@ -599,7 +760,7 @@ func (r *verifC10Run) act(a vsx, next *vsx) string {
 		if r.inflight < 0 && !errSet && !nextIs(1, id) {
 			return "bad-case" // nothing can hold a sender between its err check and sendMu.Lock
 		}
-		s := r.startSender(id, a.l[2].str())
+		s := r.startSender(id, a.l[2].str(), kind, failAt)
 		if r.inflight >= 0 {
 			// sendMu is held by a writer: the new sender returns at the err check or parks on the mutex
 			if !verifC10Until(func() bool { return s.poll() || verifC10BlockedOnMutex(s.goid) }) {
@@ -613,7 +774,12 @@ func (r *verifC10Run) act(a vsx, next *vsx) string {
 		if !verifC10Until(func() bool { return s.poll() || r.stdin.entered(s.goid) }) {
 			return "sender-neither-returned-nor-writing"
 		}
-		if r.stdin.entered(s.goid) { // (it may have failed and returned already)
+		if s.instant {
+			// its write (if it gets that far) fails at once: SendLock and WriteFail follow directly
+			if !verifC10Until(s.poll) {
+				return "sender-did-not-return"
+			}
+		} else if r.stdin.entered(s.goid) { // (it may have failed and returned already)
 			r.inflight = id
 		}
 		return ""
@@ -632,22 +798,46 @@ func (r *verifC10Run) act(a vsx, next *vsx) string {
 				return "sender-neither-returned-nor-writing"
 			}
 			r.blocked = -1
-			if r.stdin.entered(s.goid) { // (it may have failed and returned already)
+			if s.instant {
+				if !verifC10Until(s.poll) {
+					return "sender-did-not-return"
+				}
+			} else if r.stdin.entered(s.goid) { // (it may have failed and returned already)
 				r.inflight = id
 			}
+		}
+		if s.instant && !s.poll() {
+			return "bad-case"
+		}
+		if s.instant && !nextIs(3, id) {
+			return "bad-case" // it has (maybe) been through its failing write already: WriteFail must follow
 		}
 		if r.inflight == id && r.inClosed && !nextIs(3, id) {
 			return "bad-case"
 		}
 		return ""
-	case 2, 3: // WriteOk i / WriteFail i
+	case 2, 3: // WriteOk i / WriteFail i [how]
 		id := a.l[1].i
 		s := r.senders[id]
-		if s == nil || r.inflight != id {
+		if s == nil {
+			return "bad-case"
+		}
+		how := int64(0) // 0 closed pipe, 1 marshalling, 2 other pipe error
+		if op == 3 && len(a.l) > 2 {
+			how = a.l[2].i
+		}
+		if s.instant {
+			// the goroutine went through lock, registration and the failing write in one go
+			if op != 3 || how != s.kind || prevOp != 1 || prevID != id || !s.poll() {
+				return "bad-case"
+			}
+			return ""
+		}
+		if r.inflight != id {
 			return "bad-case"
 		}
 		if op == 2 {
-			if r.inClosed || r.exited {
+			if r.inClosed || r.exited || s.kind != 0 {
 				return "bad-case"
 			}
 			got, ok := r.fake.do(verifC10Cmd{op: 0})
@@ -657,7 +847,18 @@ func (r *verifC10Run) act(a vsx, next *vsx) string {
 			if got != s.name {
 				return "client-read-other-request"
 			}
-		} else if !r.inClosed {
+		} else if how == 0 {
+			if !r.inClosed {
+				return "bad-case"
+			}
+		} else if how == 2 {
+			if s.kind != 2 || r.inClosed || r.exited {
+				return "bad-case"
+			}
+			if got, ok := r.fake.do(verifC10Cmd{op: 6, n: s.failAt}); !ok || got != "" {
+				return "fake-stuck"
+			}
+		} else {
 			return "bad-case"
 		}
 		if !verifC10Until(s.poll) {
@@ -696,7 +897,7 @@ func (r *verifC10Run) act(a vsx, next *vsx) string {
 		if r.exited {
 			return "bad-case"
 		}
-		if a.l[2].i != 0 && r.inflight >= 0 && !r.inClosed {
+		if a.l[2].i != 0 && r.inflight >= 0 && !r.inClosed && r.senders[r.inflight].kind == 0 {
 			if _, ok := r.fake.do(verifC10Cmd{op: 1}); !ok {
 				return "fake-stuck"
 			}
@@ -760,7 +961,7 @@ func (r *verifC10Run) act(a vsx, next *vsx) string {
 		go func() { r.runner.closeSend(); close(done) }()
 		select {
 		case <-done:
-		case <-time.After(verifC10Patience):
+		case <-time.After(verifC10Wait()):
 			return "closeSend-stuck"
 		}
 		r.inClosed = true
@@ -785,12 +986,40 @@ func (r *verifC10Run) act(a vsx, next *vsx) string {
 		case e := <-ch:
 			c := verifC10ErrCode(e)
 			r.waitRes = &c
-		case <-time.After(verifC10Patience):
+		case <-time.After(verifC10Wait()):
 			return "waitForResponses-did-not-return"
 		}
 		return ""
 	}
 	return "bad-case"
+}
+
+// after a hang: unblock whatever can be unblocked from outside (best effort, nothing is compared
+// any more), so that the goroutines of this run do not pile up in the test binary
+func (r *verifC10Run) abandon() {
+	_ = r.stdin.inner.Close()
+	if r.fake.out != nil {
+		_ = r.fake.out.Close()
+	}
+	r.gate.allow(1 << 30)
+	r.gate.allowEOF()
+	select {
+	case <-r.ctl.release:
+	default:
+		close(r.ctl.release)
+	}
+	go func() {
+		for {
+			select {
+			case r.fake.cmds <- verifC10Cmd{op: 5}:
+			case <-r.fake.acks:
+			case <-r.local.done:
+				return
+			case <-time.After(time.Minute):
+				return
+			}
+		}
+	}()
 }
 
 // cleanup ends every goroutine of the run; a run that cannot be ended is a hang
@@ -807,8 +1036,7 @@ func (r *verifC10Run) cleanup() string {
 		}()
 		select {
 		case <-done:
-		case <-time.After(verifC10Patience):
-			_ = r.fake.out.Close()
+		case <-time.After(verifC10Wait()):
 			return "fake-client-stuck"
 		}
 	}
@@ -832,7 +1060,7 @@ func (r *verifC10Run) cleanup() string {
 	if r.stopDone != nil {
 		select {
 		case <-r.stopDone:
-		case <-time.After(verifC10Patience):
+		case <-time.After(verifC10Wait()):
 			return "stop-did-not-return"
 		}
 	}
@@ -841,10 +1069,6 @@ func (r *verifC10Run) cleanup() string {
 
 // (actions) (request ids) -> ((isRunning after each action) ((id ret (callbacks))...) done wait)
 func verifC10Script(args []vsx) vsx {
-	if verifC10Stuck.Load() >= 4 {
-		// every stuck run costs the full patience; do not let a broken tree take hours
-		return vL(vS("stuck"), vS("skipped-after-several-stuck-runs"))
-	}
 	r, err := verifC10Start()
 	if err != nil {
 		return vErr("start")
@@ -877,16 +1101,9 @@ func verifC10Script(args []vsx) vsx {
 				ret = vL(vI(verifC10ErrCode(s.ret)))
 			}
 			var fs []vsx
-			for _, f := range fires {
-				if f.id != id {
-					continue
-				}
-				if f.resp && f.code == 0 {
-					fs = append(fs, vL(vI(0), vS(f.name), vS(f.tag)))
-				} else if !f.resp && f.code != 0 {
-					fs = append(fs, vL(vI(1), vS(f.name), vI(f.code)))
-				} else {
-					fs = append(fs, vL(vI(2), vS(f.name))) // neither/both: never in the model
+			for k := range fires {
+				if fires[k].id == id {
+					fs = append(fs, fires[k].final()) // every kept response is read again NOW
 				}
 			}
 			per = append(per, vL(vI(id), ret, vL(fs...)))
@@ -897,17 +1114,256 @@ func verifC10Script(args []vsx) vsx {
 	if r.waitRes != nil {
 		wait = vL(vI(*r.waitRes))
 	}
-	if c := r.cleanup(); c != "" && problem == "" {
+	if problem != "" && problem != "bad-case" {
+		r.abandon()
+	} else if c := r.cleanup(); c != "" && problem == "" {
 		problem = "cleanup:" + c
+		r.abandon()
 	}
 	if problem == "bad-case" {
 		return vL(vS("bad-case"))
 	}
 	if problem != "" {
-		verifC10Stuck.Add(1)
-		return vL(vS("stuck"), vS(problem))
+		verifC10Hangs.Add(1)
+		return vL(vS("hang"), vS(problem))
 	}
 	return vL(vL(running...), vL(vL(per...), vBool(done), wait))
+}
+
+// ---------------------------------------------------------------------------
+// c10.proc: a free-running in-process client on the REAL runInProcess (nothing gated; the
+// only instrumentation is the recorder on stdin that tells when a sender is inside its
+// write).  One sender hands requests 0..n-1 to the runner; the client function reads the
+// first r of them, answers those listed (in that order), reads `peek` bytes of the next
+// request, and RETURNS - nil or an error - while the sender is inside the write of request r.
+// (names) r (answers) failed peek -> (isRunning ((id ret (callbacks))...) done wait)
+// ---------------------------------------------------------------------------
+func verifC10Proc(args []vsx) vsx {
+	if len(args) != 5 {
+		return vL(vS("bad-case"))
+	}
+	names := args[0].strs()
+	n, r := len(names), int(args[1].i)
+	failed, peek := args[3].i != 0, int(args[4].i)
+	seenName := map[string]bool{}
+	for _, nm := range names {
+		if len(nm) == 0 || len(nm) >= 100 || seenName[nm] {
+			return vL(vS("bad-case"))
+		}
+		seenName[nm] = true
+	}
+	var answers []int
+	seenAns := map[int]bool{}
+	for _, a := range args[2].l {
+		j := int(a.i)
+		if j < 0 || j >= r || seenAns[j] {
+			return vL(vS("bad-case"))
+		}
+		seenAns[j] = true
+		answers = append(answers, j)
+	}
+	if r < 0 || r > n || peek < 0 {
+		return vL(vS("bad-case"))
+	}
+	reqs := make([]*conformancev1.ClientCompatRequest, n)
+	for i := range reqs {
+		reqs[i] = &conformancev1.ClientCompatRequest{TestName: names[i]}
+	}
+	if r < n {
+		if max := 4 + proto.Size(reqs[r]) - 1; peek > max {
+			peek = max
+		}
+	}
+	goOn := make(chan struct{})
+	clientProblem := make(chan string, 1)
+	client := func(_ context.Context, _ []string, in io.ReadCloser, out, _ io.WriteCloser) error {
+		for i := 0; i < r; i++ {
+			req := &conformancev1.ClientCompatRequest{}
+			if err := internal.ReadDelimitedMessage(in, req, "verif", time.Minute, 1<<24); err != nil || req.TestName != names[i] {
+				clientProblem <- fmt.Sprintf("client-could-not-read-request-%d", i)
+				return errVerifC10Exit
+			}
+		}
+		for _, j := range answers {
+			err := internal.WriteDelimitedMessage(out, &conformancev1.ClientCompatResponse{
+				TestName: names[j],
+				Result:   &conformancev1.ClientCompatResponse_Error{Error: &conformancev1.ClientErrorResult{Message: "r-" + names[j]}},
+			})
+			if err != nil {
+				clientProblem <- fmt.Sprintf("client-could-not-write-answer-%d", j)
+				return errVerifC10Exit
+			}
+		}
+		<-goOn
+		if r < n && peek > 0 {
+			_, _ = io.ReadFull(in, make([]byte, peek))
+		}
+		if failed {
+			return errVerifC10Exit
+		}
+		return nil // early, with "status zero", the sender still inside its write
+	}
+	var stdin *verifC10In
+	var local *localProcess
+	real := runInProcess([]string{"verif-c10-proc"}, client)
+	starter := func(ctx context.Context, pipeStderr bool) (*process, error) {
+		p, err := real(ctx, pipeStderr)
+		if err != nil {
+			return nil, err
+		}
+		local, _ = p.processController.(*localProcess)
+		stdin = &verifC10In{inner: p.stdin, seen: map[string]bool{}, plan: map[string]int{}, off: map[string]int{}}
+		p.stdin = stdin
+		return p, nil
+	}
+	cr, err := runClient(context.Background(), starter)
+	if err != nil {
+		return vErr("start")
+	}
+	runner, ok := cr.(*clientProcessRunner)
+	if !ok || local == nil {
+		return vErr("start")
+	}
+	var mu sync.Mutex
+	var fires []verifC10Fire
+	nfires := func() int { mu.Lock(); defer mu.Unlock(); return len(fires) }
+	type sent struct {
+		goid string
+		done chan error
+		ret  error
+		back bool
+	}
+	calls := make([]*sent, n)
+	send := func(i int) *sent {
+		c := &sent{done: make(chan error, 1)}
+		calls[i] = c
+		ready := make(chan struct{})
+		go func() {
+			c.goid = verifC10Goid()
+			close(ready)
+			c.done <- runner.sendRequest(reqs[i], func(nm string, resp *conformancev1.ClientCompatResponse, err error) {
+				f := verifC10NewFire(int64(i), nm, resp, err)
+				mu.Lock()
+				fires = append(fires, f)
+				mu.Unlock()
+			})
+		}()
+		<-ready
+		return c
+	}
+	returned := func(c *sent) bool {
+		if c.back {
+			return true
+		}
+		select {
+		case c.ret = <-c.done:
+			c.back = true
+		default:
+		}
+		return c.back
+	}
+	released := false
+	release := func() {
+		if !released {
+			released = true
+			close(goOn)
+		}
+	}
+	problem := ""
+	clientFailed := func() bool {
+		select {
+		case p := <-clientProblem:
+			problem = p
+			return true
+		default:
+			return problem != ""
+		}
+	}
+	for i := 0; i < n && problem == ""; i++ {
+		if i == r {
+			// every answer has been delivered; then the sender enters the write the client never completes
+			if !verifC10Until(func() bool { return nfires() == len(answers) || clientFailed() }) {
+				problem = "answers-not-delivered"
+			}
+			if problem != "" {
+				break
+			}
+			c := send(i)
+			if !verifC10Until(func() bool { return returned(c) || stdin.entered(c.goid) }) {
+				problem = "sender-neither-returned-nor-writing"
+				break
+			}
+			release() // the client function returns now
+			if !verifC10Until(func() bool { return returned(c) }) {
+				problem = "sendRequest-did-not-return-after-the-client-function-returned"
+			}
+			continue
+		}
+		c := send(i)
+		if !verifC10Until(func() bool { return returned(c) || clientFailed() }) {
+			problem = fmt.Sprintf("sendRequest-%d-did-not-return", i)
+		}
+	}
+	if problem == "" && r == n {
+		if !verifC10Until(func() bool { return nfires() == len(answers) || clientFailed() }) {
+			problem = "answers-not-delivered"
+		}
+		release()
+	}
+	var waitRes *int64
+	if problem == "" {
+		closed := make(chan struct{})
+		go func() { runner.closeSend(); close(closed) }()
+		select {
+		case <-closed:
+		case <-time.After(verifC10Wait()):
+			problem = "closeSend-did-not-return"
+		}
+	}
+	if problem == "" {
+		ch := make(chan error, 1)
+		go func() { ch <- runner.waitForResponses() }()
+		select {
+		case e := <-ch:
+			c := verifC10ErrCode(e)
+			waitRes = &c
+		case <-time.After(verifC10Wait() + 10*time.Second): // (its own grace periods are 3 s + 5 s)
+			problem = "waitForResponses-did-not-return"
+		}
+	}
+	if problem != "" {
+		release()
+		_ = stdin.inner.Close()
+		verifC10Hangs.Add(1)
+		return vL(vS("hang"), vS(problem))
+	}
+	// the exit notice (runClient's whenDone) runs in its own goroutine once the process is done
+	verifC10Until(func() bool { return !runner.isRunning() })
+	running := runner.isRunning()
+	done := false
+	select {
+	case <-runner.done:
+		done = true
+	default:
+	}
+	mu.Lock()
+	final := append([]verifC10Fire(nil), fires...)
+	mu.Unlock()
+	var per []vsx
+	for i := 0; i < n; i++ {
+		ret := vL()
+		if c := calls[i]; c != nil && returned(c) {
+			ret = vL(vI(verifC10ErrCode(c.ret)))
+		}
+		var fs []vsx
+		for k := range final {
+			if final[k].id == int64(i) {
+				fs = append(fs, final[k].final())
+			}
+		}
+		per = append(per, vL(vI(int64(i)), ret, vL(fs...)))
+	}
+	return vL(vBool(running), vL(vL(per...), vBool(done), vL(vI(*waitRes))))
 }
 
 // TestVerifConsts prints the constants of the compiled code as Coq definitions.
@@ -1066,6 +1522,7 @@ func TestVerifC10Race(t *testing.T) {
 			ret   error
 			fires atomic.Int64
 			bad   atomic.Bool
+			kept  atomic.Pointer[conformancev1.ClientCompatResponse]
 		}
 		var mu sync.Mutex
 		var calls []*call
@@ -1089,6 +1546,7 @@ func TestVerifC10Race(t *testing.T) {
 							if resp != nil && (resp.TestName != name || resp.GetError().GetMessage() != "t:"+name) {
 								c.bad.Store(true)
 							}
+							c.kept.Store(resp) // looked at again when the round is over
 						})
 					mu.Lock()
 					calls = append(calls, c)
@@ -1100,7 +1558,7 @@ func TestVerifC10Race(t *testing.T) {
 		go func() { wg.Wait(); close(sent) }()
 		select {
 		case <-sent:
-		case <-time.After(60 * time.Second):
+		case <-time.After(40 * time.Second):
 			problem = fmt.Sprintf("problem: round %d: a sendRequest call never returned (client kind %d)", round, client.failKind)
 			continue
 		}
@@ -1109,7 +1567,7 @@ func TestVerifC10Race(t *testing.T) {
 		go func() { waited <- runner.waitForResponses() }()
 		select {
 		case <-waited:
-		case <-time.After(60 * time.Second):
+		case <-time.After(40 * time.Second):
 			problem = fmt.Sprintf("problem: round %d: waitForResponses did not return (client kind %d)", round, client.failKind)
 			continue
 		}
@@ -1125,7 +1583,10 @@ func TestVerifC10Race(t *testing.T) {
 		for _, c := range calls {
 			total++
 			n := c.fires.Load()
+			kept := c.kept.Load()
 			switch {
+			case kept != nil && (kept.GetTestName() != c.name || kept.GetError().GetMessage() != "t:"+c.name):
+				problem = fmt.Sprintf("problem: round %d: the response handed to the callback of %q reads as %q's after later responses were read", round, c.name, kept.GetTestName())
 			case c.bad.Load():
 				problem = fmt.Sprintf("problem: round %d: callback of %q got another test's response, or neither/both of response and error", round, c.name)
 			case c.ret == nil && n != 1:
